@@ -2,7 +2,10 @@
 
 package pppoe
 
-import "net"
+import (
+	"net"
+	"time"
+)
 
 // PoolViewForVerif returns copies of the client pool's free list (in order) and of its allocation table
 // (RADIUS session id -> address).
@@ -18,4 +21,13 @@ func (s *Server) PoolViewForVerif() ([]net.IP, map[string]net.IP) {
 		alloc[k] = v
 	}
 	return avail, alloc
+}
+
+// AgeSessionsForVerif moves every live session's last activity back by d (virtual idle time for the idle sweep).
+func (s *Server) AgeSessionsForVerif(d time.Duration) {
+	for _, sess := range s.sessions.GetAllSessions() {
+		sess.mu.Lock()
+		sess.LastActivity = sess.LastActivity.Add(-d)
+		sess.mu.Unlock()
+	}
 }
